@@ -197,6 +197,8 @@ std::vector<Desc> descriptions() {
   ds.push_back({"virtonly", {S("C1", {"s1"}, {"<a>"}), S("C2", {"<a>", "s2"}, {"<b>"}), S("C3", {"<b>", "s1"}, {"o3"})}, {"o3"}, false, {}});
   // the usual aggregate target: a phony command at the END (nothing behind it)
   ds.push_back({"phonyall", {S("C1", {"s1"}, {"o1"}), S("C2", {"o1", "s2"}, {"o2"}), S("C3", {"s2"}, {"o3"}), P("ALL", {"o2", "o3"}, {"<all>"})}, {"<all>"}, false, {}});
+  // a producer with two consumers, one of which also waits for a second producer (reuse scenarios: C2 is slowed down)
+  ds.push_back({"share", {S("C1", {"s1"}, {"o1"}), S("C2", {"s2"}, {"o2"}), S("C3", {"o1", "o2"}, {"o3"}), S("C4", {"o1"}, {"o4"})}, {"o3", "o4"}, true, {}});
   for (auto& d : ds)
     for (size_t i = 0; i < d.cmds.size(); ++i)
       if (!d.cmds[i].phony) d.shell.push_back((int)i);
@@ -444,12 +446,23 @@ class KGDelegate : public BuildSystemFrontendDelegate {
 
 public:
   BuildObs& o;
+  // reuse scenarios: cancel the build from inside the cancelAt-th status callback (0: never)
+  long callbacks = 0, cancelAt = 0;
+  bool cancelIssued = false;
+  void tick() {
+    bool fire = false;
+    { std::lock_guard<std::mutex> l(m); fire = ++callbacks == cancelAt; if (fire) cancelIssued = true; }
+    if (fire) cancel();
+  }
+  void commandPreparing(Command* c) override { BuildSystemFrontendDelegate::commandPreparing(c); tick(); }
+  bool shouldCommandStart(Command* c) override { tick(); return BuildSystemFrontendDelegate::shouldCommandStart(c); }
   KGDelegate(llvm::SourceMgr& sm, BuildObs& o) : BuildSystemFrontendDelegate(sm, "basic", 0), o(o) {}
   std::unique_ptr<Tool> lookupTool(StringRef) override { return nullptr; }
   // KEEP GOING: count, never cancel (the tool's delegate calls cancel() here)
   void hadCommandFailure() override {
     { std::lock_guard<std::mutex> l(m); ++o.failures; }
     BuildSystemFrontendDelegate::hadCommandFailure();
+    tick();
   }
   void error(StringRef filename, const Token&, const Twine& message) override {
     std::lock_guard<std::mutex> l(m);
@@ -457,11 +470,13 @@ public:
     o.output += "error: " + filename.str() + ": " + message.str() + "\n";
   }
   void commandStarted(Command* c) override {
+    tick();
     if (!c->shouldShowStatus()) return;
     std::lock_guard<std::mutex> l(m);
     o.started.push_back(c->getName().str());
   }
   void commandFinished(Command* c, ProcessStatus st) override {
+    tick();
     if (!c->shouldShowStatus()) return;
     std::lock_guard<std::mutex> l(m);
     o.statuses.push_back(c->getName().str() + "=" +
@@ -592,6 +607,103 @@ struct Judge {
   void sanity(const BuildObs& o, const std::string& what) {
     if (!o.initialized) fatal(what + ": the description did not load / the database did not attach\n" + o.output);
     if (o.cycle) fatal(what + ": cycle reported\n" + o.output);
+  }
+
+  // ---- reuse scenarios (C05 at the BuildSystem level): ONE frontend (one BuildSystem, one engine, one set of Command
+  // objects) serves a build that is cancelled from inside its cancelAt-th status callback (optionally with a command
+  // directed to fail and another one slowed down), then - cause removed, optionally every source edited - a second
+  // build and a null build. The later builds must give the clean-build result whatever the first one left behind.
+  struct Reuse { int desc; int fail; int kind; int slow; int lanes; int edit; long cancelAt; };
+  std::string specOf(const Reuse& r) const {
+    const Desc& d = descs[r.desc];
+    return "ru|" + d.id + "|" + (r.fail < 0 ? "-" : d.cmds[r.fail].name) + "|" + kKinds[r.kind] + "|" + (r.slow < 0 ? "-" : d.cmds[r.slow].name) + "|" +
+           std::to_string(r.lanes) + "|" + std::to_string(r.edit) + "|" + std::to_string(r.cancelAt);
+  }
+  // returns the number of status callbacks of the first build (so that the caller knows when to stop raising cancelAt)
+  long runReuse(const Reuse& r) {
+    const Desc& d = descs[r.desc];
+    const std::string spec = specOf(r);
+    const std::string what = d.id + " [" + std::to_string(r.lanes) + " lane(s), one frontend reused] first build" +
+                             (r.fail >= 0 ? " with " + d.cmds[r.fail].name + " directed to " + kKinds[r.kind] : "") +
+                             (r.slow >= 0 ? ", " + d.cmds[r.slow].name + " slowed down" : "") + ", cancelled from status callback #" + std::to_string(r.cancelAt) +
+                             (r.edit ? ", then every source edited" : "");
+    const std::string y = yaml(d, F_NONE, {});
+    crossCheck(d, y);
+    Sandbox sb;
+    sb.create(gScratch + "/" + std::to_string(++sandboxNo));
+    if (chdir(sb.root.c_str()) != 0) fatal("chdir sandbox");
+    std::map<std::string, std::string> src{{"s1", "s1:0"}, {"s2", "s2:0"}};
+    for (auto& kv : src) sb.write(kv.first, kv.second);
+    sb.rawWrite("build.llbuild", y);
+    res.count("evaluations");
+    res.count("reuse_scenarios");
+    long firstCallbacks = 0;
+    {
+      BuildObs o1;
+      llvm::SourceMgr sm;
+      BuildSystemInvocation inv;
+      inv.buildFilePath = "build.llbuild";
+      inv.dbPath = "build.db";
+      inv.useSerialBuild = r.lanes == 1;
+      inv.schedulerLanes = (uint32_t)r.lanes;
+      inv.environment = kEnv;
+      BuildObs* cur = &o1;
+      KGDelegate del(sm, *cur);
+      BuildSystemFrontend fe(del, inv, createLocalFileSystem());
+      std::map<std::string, std::string> ctl;
+      if (r.fail >= 0) ctl[d.cmds[r.fail].name] = kCtlWord[r.kind];
+      if (r.slow >= 0) ctl[d.cmds[r.slow].name] = "delay 150";
+      sb.setCtl(ctl);
+      del.cancelAt = r.cancelAt;
+      sb.newExec();
+      ++gBuilds;
+      bool r1 = fe.build("all");
+      o1.ran = sb.newExec();
+      firstCallbacks = del.callbacks;
+      bool cancelled = del.cancelIssued;
+      if (cancelled) res.count("reuse_first_builds_cancelled");
+      if (cancelled && r1)
+        res.violate("C05.ru-cancelled-build-reported-success", what + ": the cancelled build returned success (ran: " + join(o1.ran, " ") + ")", spec);
+      if (verbose) printf("%s\n  B1: returned %d, %ld callbacks, cancelled=%d, ran [%s]\n%s", what.c_str(), (int)r1, firstCallbacks, (int)cancelled, join(o1.ran, " ").c_str(), o1.output.c_str());
+      // repair, optional edit
+      sb.setCtl({});
+      if (r.edit) for (auto& kv : src) { kv.second = kv.first + ":1"; sb.write(kv.first, kv.second); }
+      Reference ref{d, src, {}};
+      auto want = ref.outputs();
+      // B2 on the SAME frontend
+      del.cancelAt = 0; del.callbacks = 0; del.cancelIssued = false;
+      o1.failures = 0; o1.errors = 0; o1.output.clear();
+      ++gBuilds;
+      bool r2 = fe.build("all");
+      Strs ran2 = sb.newExec();
+      if (verbose) printf("  B2: returned %d, ran [%s]\n%s", (int)r2, join(ran2, " ").c_str(), o1.output.c_str());
+      res.count("reuse_later_builds");
+      if (!r2 || o1.failures || o1.errors)
+        res.violate("C05.ru-later-build-failed", what + ": the next build on the same frontend, cause removed, failed (returned " + std::to_string(r2) + ", " +
+                        std::to_string(o1.failures) + " command failures; ran: " + join(ran2, " ") + ") " + o1.output.substr(0, 200), spec);
+      else
+        for (auto& kv : want) {
+          std::string got = sb.observe(kv.first);
+          if (got != kv.second) {
+            res.violate(std::string("C05.ru-later-build-") + (got == "<missing>" ? "missing-output" : "stale-output"),
+                        what + ": after the next (successful) build on the same frontend output " + kv.first + " is '" + got + "', a clean build gives '" + kv.second +
+                            "' (ran: " + join(ran2, " ") + ")", spec);
+            break;
+          }
+        }
+      // B3: nothing changed
+      o1.failures = 0; o1.errors = 0; o1.output.clear();
+      ++gBuilds;
+      bool r3 = fe.build("all");
+      Strs ran3 = sb.newExec();
+      res.count("reuse_later_builds");
+      if (verbose) printf("  B3: returned %d, ran [%s]\n", (int)r3, join(ran3, " ").c_str());
+      if (r2 && !o1.failures && (!r3 || !ran3.empty()))
+        res.violate("C05.ru-null-build-not-clean", what + ": a third build with no change returned " + std::to_string(r3) + " and ran [" + join(ran3, " ") + "]", spec);
+    }
+    if (chdir("/") != 0) {}
+    sb.destroy();
+    return firstCallbacks;
   }
 
   // the reference evaluator against a REAL clean build (no database, empty output tree), once per description text
@@ -829,7 +941,7 @@ unsigned popcount(unsigned m) { unsigned n = 0; for (; m; m &= m - 1) ++n; retur
 int main(int argc, char** argv) {
   vj::Args args;
   args.parse(argc, argv);
-  if (args.prop != "C10") { fprintf(stderr, "kgx: only --prop C10\n"); return 2; }
+  if (args.prop != "C10" && args.prop != "C05") { fprintf(stderr, "kgx: only --prop C10 or C05\n"); return 2; }
   if (args.nshards < 1 || args.shard < 0 || args.shard >= args.nshards) { fprintf(stderr, "kgx: bad shard\n"); return 2; }
 
   // the helper command
@@ -877,6 +989,84 @@ int main(int argc, char** argv) {
       "(no database) once per distinct description text per process; a disagreement is a harness error (exit 3)",
       "C10 keep-going: not covered here: cancellation (SIGINT) - worldx C10i; failures by missing undeclared input / unwritable output - worldx; mixed failure kinds inside one subset; "
       "failing builds at a later index than the second build of the history"};
+
+  // ------------------------------------------------------------ C05: reuse scenarios
+  if (args.prop == "C05") {
+    auto cmdIndex = [&](const Desc& d, const std::string& n) { return n == "-" ? -1 : d.byName(n); };
+    if (!args.replaySpec.empty()) {
+      Strs f = split(args.replaySpec, '|');
+      Judge::Reuse r{-1, -1, 0, -1, 1, 0, 0};
+      bool ok = f.size() == 8 && f[0] == "ru";
+      if (ok) {
+        for (size_t i = 0; i < descs.size(); ++i) if (descs[i].id == f[1]) r.desc = (int)i;
+        ok = r.desc >= 0;
+      }
+      if (ok) {
+        r.fail = cmdIndex(descs[r.desc], f[2]);
+        r.kind = -1;
+        for (int i = 0; i < kNumKinds; ++i) if (f[3] == kKinds[i]) r.kind = i;
+        r.slow = cmdIndex(descs[r.desc], f[4]);
+        r.lanes = atoi(f[5].c_str());
+        r.edit = atoi(f[6].c_str());
+        r.cancelAt = atol(f[7].c_str());
+        ok = r.kind >= 0 && r.lanes >= 1 && r.lanes <= 16;
+      }
+      if (!ok) { fprintf(stderr, "kgx: bad replay spec '%s'\n", args.replaySpec.c_str()); wipe(gScratch, true); return 3; }
+      J.verbose = true;
+      J.runReuse(r);
+      res.count("builds", gBuilds);
+      for (auto& v : res.violations) printf("VIOLATION %s: %s\n", v.cls.c_str(), v.what.c_str());
+      if (res.violations.empty()) printf("no violation\n");
+      wipe(gScratch, true);
+      res.write(args.out);
+      return res.violations.empty() ? 0 : 1;
+    }
+    struct Base { int desc, fail, kind, slow, lanes, edit; };
+    std::vector<Base> bases;
+    for (int lanes : {1, 4})
+      for (size_t di = 0; di < descs.size(); ++di) {
+        const Desc& d = descs[di];
+        if (!thorough && !d.quick) continue;
+        bool slowDesc = lanes > 1 && (thorough || d.id == "share" || d.id == "diamond");
+        std::vector<std::pair<int, int>> fails{{-1, 0}};
+        for (int c : d.shell) { fails.push_back({c, 0}); fails.push_back({c, 1}); }
+        for (auto& fk : fails) {
+          std::vector<int> slows{-1};
+          if (slowDesc) for (int c : d.shell) if (c != fk.first) slows.push_back(c);
+          for (int slow : slows)
+            for (int edit = 0; edit < 2; ++edit) bases.push_back({(int)di, fk.first, fk.second, slow, lanes, edit});
+        }
+      }
+    if (args.shard == 0) res.counters["work_items_total"] = (long long)bases.size();
+    for (size_t i = 0; i < bases.size(); ++i) {
+      if ((int)(i % (size_t)args.nshards) != args.shard) continue;
+      if (args.overBudget()) { res.exhaustive = false; res.count("work_items_skipped_budget"); continue; }
+      const Base& b = bases[i];
+      // cancelAt 0 = the first build is not cancelled (it fails or succeeds by itself); its callback count bounds the loop
+      long n = J.runReuse({b.desc, b.fail, b.kind, b.slow, b.lanes, b.edit, 0});
+      res.maxOf("max_status_callbacks_per_build", n);
+      for (long c = 1; c <= n; ++c) J.runReuse({b.desc, b.fail, b.kind, b.slow, b.lanes, b.edit, c});
+      res.count("work_items_done");
+    }
+    res.count("builds", gBuilds);
+    res.counters["distinct_nontrivial"] = res.counters["reuse_first_builds_cancelled"];
+    res.strings["rule"] =
+        "reuse scenario = (description, directed failure {none, each shell command x fail-before/fail-after}, slowed-down command {none; each other command, 4 lanes, "
+        "descriptions share and diamond" + std::string(thorough ? " and all others" : "") + "}, lanes {1, 4}, edit of every source {no, yes}, cancelAt): ONE BuildSystemFrontend runs a first build that is "
+        "cancelled from inside its cancelAt-th status callback (commandPreparing, shouldCommandStart, commandStarted, commandFinished, hadCommandFailure; EVERY index up to the "
+        "number of callbacks of the uncancelled build, and 0 = not cancelled), then - control file removed - a second build and a null build on the same frontend; "
+        "evaluations = scenarios, distinct_nontrivial = scenarios whose first build really was cancelled";
+    res.assumptions = {
+        "C05 reuse: the later builds are judged only by their results (exit status, contents of every output against the reference evaluator, null build runs nothing); where exactly "
+        "the asynchronous cancellation lands in the first build is not asserted, so thread timing cannot cause an alarm",
+        "C05 reuse: with 4 lanes the order of status callbacks of independent commands is the kernel's; the callback INDEX at which the build is cancelled is enumerated exhaustively, "
+        "the interleaving behind it is not (the slowed-down command keeps one command running for 150 ms so that the others settle first)",
+        "C05 reuse: keep-going delegate (a failure does not cancel by itself); the reference evaluator is cross-checked against a real clean build per description"};
+    if (chdir("/") != 0) {}
+    wipe(gScratch, true);
+    if (!res.write(args.out)) { fprintf(stderr, "kgx: cannot write %s\n", args.out.c_str()); return 2; }
+    return res.violations.empty() ? 0 : 1;
+  }
 
   // ------------------------------------------------------------ replay
   if (!args.replaySpec.empty()) {
